@@ -873,3 +873,199 @@ func ruleC15SrcReadOnly(cx *Ctx) {
 	}
 	cx.R.Check(n >= 1, rule, "hashmap", "bucket copiers found", "-", fmt.Sprintf("%d", n))
 }
+
+// ---------------------------------------------------------------------------------------------------------------
+// C17.bound: the stripe table is doubled only below its maximum
+// ---------------------------------------------------------------------------------------------------------------
+
+func ruleC17Bound(cx *Ctx) {
+	const rule = "C17.bound"
+	cx.R.Rule(rule, 1, "the table that is doubled is one whose length was tested to be below maxLen on the path - the very value, a value compared equal to it, or (in a helper) the argument of every call - so the read buffer never holds more than its fixed number of stripes")
+	lenF := cx.needField(rule, lossyPkg, "striped", "len")
+	maxF := cx.needField(rule, lossyPkg, "Striped", "maxLen")
+	if lenF == nil || maxF == nil {
+		return
+	}
+	// below(v, at): on every path to `at` the table value v has len < maxLen
+	var below func(v ssa.Value, at ssa.Instruction, depth int) bool
+	below = func(v ssa.Value, at ssa.Instruction, depth int) bool {
+		if depth > 3 {
+			return false
+		}
+		gs := guardsAt(at.Block())
+		lenOf := func(x ssa.Value) ssa.Value { // x = T.len -> T
+			x = stripConv(x)
+			if ld, ok := x.(*ssa.UnOp); ok {
+				if fa, isFA := ld.X.(*ssa.FieldAddr); isFA && sameField(fieldOf(fa), lenF) {
+					return fa.X
+				}
+			}
+			return nil
+		}
+		isMax := func(x ssa.Value) bool { f := fieldOf(stripConv(x)); return f != nil && sameField(f, maxF) }
+		for _, g := range gs {
+			b, ok := g.Cond.(*ssa.BinOp)
+			if !ok {
+				continue
+			}
+			var t ssa.Value
+			lt := false // the guard establishes len < max
+			switch {
+			case lenOf(b.X) != nil && isMax(b.Y):
+				t = lenOf(b.X)
+				lt = (b.Op.String() == ">=" && !g.Truth) || (b.Op.String() == "<" && g.Truth)
+			case lenOf(b.Y) != nil && isMax(b.X):
+				t = lenOf(b.Y)
+				lt = (b.Op.String() == "<=" && !g.Truth) || (b.Op.String() == ">" && g.Truth)
+			}
+			if t != nil && lt && t == v {
+				return true
+			}
+		}
+		// compared equal to a value that is below
+		for _, g := range gs {
+			b, ok := g.Cond.(*ssa.BinOp)
+			if !ok || !((b.Op.String() == "==" && g.Truth) || (b.Op.String() == "!=" && !g.Truth)) {
+				continue
+			}
+			var other ssa.Value
+			if b.X == v {
+				other = b.Y
+			} else if b.Y == v {
+				other = b.X
+			}
+			if other != nil && below(other, at, depth+1) {
+				return true
+			}
+		}
+		// a parameter: every call site passes a table that is below there
+		if p, ok := v.(*ssa.Parameter); ok {
+			f := p.Parent()
+			idx := -1
+			for i, q := range f.Params {
+				if q == p {
+					idx = i
+				}
+			}
+			sites, all := 0, true
+			for _, g := range cx.P.FuncsOfPkg(lossyPkg) {
+				allInstrs(g, func(in ssa.Instruction) {
+					if isCallTo(in, f) {
+						sites++
+						cc := callCommon(in)
+						if idx >= len(cc.Args) || !below(cc.Args[idx], in, depth+1) {
+							all = false
+						}
+					}
+				})
+			}
+			return sites > 0 && all
+		}
+		return false
+	}
+	n := 0
+	for _, fn := range cx.P.FuncsOfPkg(lossyPkg) {
+		fn := fn
+		allInstrs(fn, func(in ssa.Instruction) {
+			// len * 2 of some table
+			b, ok := in.(*ssa.BinOp)
+			if !ok {
+				return
+			}
+			dbl := false
+			if k, isK := constInt(b.Y); isK && ((b.Op.String() == "<<" && k == 1) || (b.Op.String() == "*" && k == 2)) {
+				dbl = true
+			}
+			if k, isK := constInt(b.X); isK && b.Op.String() == "*" && k == 2 {
+				dbl = true
+			}
+			if !dbl {
+				return
+			}
+			var tbl ssa.Value
+			for _, side := range []ssa.Value{b.X, b.Y} {
+				if ld, isLd := stripConv(side).(*ssa.UnOp); isLd {
+					if fa, isFA := ld.X.(*ssa.FieldAddr); isFA && sameField(fieldOf(fa), lenF) {
+						tbl = fa.X
+					}
+				}
+			}
+			if tbl == nil {
+				return
+			}
+			n++
+			cx.R.Check(below(tbl, in, 0), rule, funcName(fn), fmt.Sprintf("doubling #%d", n), cx.P.where(in), "the table whose length is doubled was tested to be shorter than maxLen on this path")
+		})
+	}
+	cx.R.Check(n >= 1, rule, "lossy", "doubling found", "-", fmt.Sprintf("%d", n))
+}
+
+// ---------------------------------------------------------------------------------------------------------------
+// C17.delivered: maintenance hands every recorded read to the policies, in every configuration
+// ---------------------------------------------------------------------------------------------------------------
+
+func ruleC17Delivered(cx *Ctx) {
+	const rule = "C17.delivered"
+	cx.R.Rule(rule, 2, "drainReadBuffer drains the read buffer on every path on which skipReadBuffer answered false, whatever the configuration, and the consumer is cache.onAccess (or the eviction policy's access handler where expiration is known to be off): every successfully recorded read is delivered when maintenance runs")
+	fn := cx.need(rule, "", "cache", "drainReadBuffer")
+	skip := cx.need(rule, "", "cache", "skipReadBuffer")
+	drain := cx.need(rule, lossyPkg, "Striped", "DrainTo")
+	onAcc := cx.need(rule, "", "cache", "onAccess")
+	if fn == nil || skip == nil || drain == nil || onAcc == nil {
+		return
+	}
+	rb := cx.P.Field("", "cache", "readBuffer")
+	isDrain := func(in ssa.Instruction) bool {
+		return isCallTo(in, drain) && (rb == nil || sameField(recvField(in), rb))
+	}
+	polAcc := cx.P.Func("", "policy", "access")
+	n := 0
+	allInstrs(fn, func(in ssa.Instruction) {
+		if !isDrain(in) {
+			return
+		}
+		n++
+		a := callArgs(in)
+		cons := a[len(a)-1]
+		ok := false
+		if mc, isMC := cons.(*ssa.MakeClosure); isMC {
+			if bm := boundMethod(mc); bm != nil {
+				switch {
+				case origin(bm) == origin(onAcc):
+					ok = true
+				case polAcc != nil && origin(bm) == origin(polAcc):
+					for _, g := range guardsAt(in.Block()) {
+						if f := fieldOf(g.Cond); f != nil && fname(f) == "withExpiration" && !g.Truth {
+							ok = true
+						}
+					}
+				}
+			}
+		}
+		cx.R.Check(ok, rule, funcName(fn), fmt.Sprintf("consumer #%d", n), cx.P.where(in), "the drained reads go to cache.onAccess (policy access + timer reschedule)")
+	})
+	// every path past a negative skipReadBuffer answer drains
+	found := false
+	allInstrs(fn, func(in ssa.Instruction) {
+		if !isCallTo(in, skip) {
+			return
+		}
+		v, _ := in.(ssa.Value)
+		for _, u := range usesOf(v) {
+			iff, isIf := u.(*ssa.If)
+			if !isIf {
+				continue
+			}
+			found = true
+			notSkipped := iff.Block().Succs[1]
+			ok, wit := MustFollowPt(Pt{notSkipped, 0}, isDrain, exitReturn, nil)
+			cx.R.Check(ok, rule, funcName(fn), "drains whenever the buffer is in use", cx.P.where(in), "every path on which skipReadBuffer is false reaches DrainTo before the function returns", wit...)
+		}
+	})
+	if !found {
+		// no skip test in place: the drain must be unconditional apart from it
+		ok, wit := MustFollowPt(Pt{fn.Blocks[0], 0}, func(in ssa.Instruction) bool { return isDrain(in) || isCallTo(in, skip) }, exitReturn, nil)
+		cx.R.Check(ok, rule, funcName(fn), "drains whenever the buffer is in use", cx.P.Pos(fn.Pos()), "every path reaches DrainTo (or the skip test) before the function returns", wit...)
+	}
+	cx.R.Check(n >= 1, rule, funcName(fn), "drain found", cx.P.Pos(fn.Pos()), fmt.Sprintf("%d", n))
+}
